@@ -1,6 +1,6 @@
 pub use super::types::{ByteCode, CelStackValue, JmpWhen, RsCallable};
 use crate::{types::CelByteCode, CelValueDyn};
-use std::{collections::HashMap, fmt};
+use std::{cell::Cell, collections::HashMap, fmt, rc::Rc};
 
 use crate::{
     context::construct_type, utils::ScopedCounter, BindContext, CelContext, CelError, CelResult,
@@ -55,6 +55,7 @@ impl<'a, 'b> InterpStack<'a, 'b> {
                             }
                         }
 
+                        self.ctx.unresolved.set(true);
                         Ok(CelValue::from_err(CelError::binding(&name)).into())
                     } else {
                         Ok(val.into())
@@ -107,6 +108,9 @@ pub struct Interpreter<'a> {
     cel: Option<&'a CelContext>,
     bindings: Option<&'a BindContext<'a>>,
     depth: ScopedCounter,
+    // set when a name could not be resolved (unbound identifier, unknown callable); shared
+    // with the interpreters spawned for macro bodies
+    unresolved: Rc<Cell<bool>>,
 }
 
 impl<'a> Interpreter<'a> {
@@ -115,6 +119,7 @@ impl<'a> Interpreter<'a> {
             cel: Some(cel),
             bindings: Some(bindings),
             depth: ScopedCounter::new(),
+            unresolved: Rc::new(Cell::new(false)),
         }
     }
 
@@ -125,6 +130,7 @@ impl<'a> Interpreter<'a> {
             cel: Some(cel),
             bindings: Some(bindings),
             depth: ScopedCounter::starting_at(self.depth.count()),
+            unresolved: self.unresolved.clone(),
         }
     }
 
@@ -133,11 +139,17 @@ impl<'a> Interpreter<'a> {
             cel: None,
             bindings: None,
             depth: ScopedCounter::new(),
+            unresolved: Rc::new(Cell::new(false)),
         }
     }
 
     pub fn add_bindings(&mut self, bindings: &'a BindContext) {
         self.bindings = Some(bindings);
+    }
+
+    /// Whether this evaluation (including macro bodies) met a name it could not resolve.
+    pub fn saw_unresolved(&self) -> bool {
+        self.unresolved.get()
     }
 
     pub fn cel_copy(&self) -> Option<CelContext> {
@@ -495,6 +507,7 @@ impl<'a> Interpreter<'a> {
                                             Err(failed) => stack.push_val(failed),
                                         }
                                     } else {
+                                        self.unresolved.set(true);
                                         stack.push_val(CelValue::from_err(CelError::runtime(
                                             &format!("{} is not callable", func_name),
                                         )));
